@@ -630,9 +630,10 @@ pub fn sweep_enc_thrash(run: &mut Run, prop: &'static str) {
         })
         .collect();
     let nk = kinds.len() as u64;
-    run.sweep("ENC-THRASH: destination A x k, N distinct destinations, then A / the first of them / a fresh one (k in 1..=3, N in 0..=20, 5 call kinds, same or rotating kinds)", nk * 3 * 21 * 3 * 2, |acc, i| {
+    run.sweep("ENC-THRASH: destination A x k, N distinct destinations, optionally a revisit (A / first / second of the sweep), then A / the first of them / a fresh one (k in 1..=3, N in 0..=20, 5 call kinds, same or rotating kinds)", nk * 3 * 21 * 3 * 2 * 4, |acc, i| {
         let mut ix = Ix(i);
         let rot = ix.take(2) == 1;
+        let mid = ix.take(4);
         let revisit = ix.take(3);
         let n = ix.take(21) as u8;
         let k = ix.take(3) + 1;
@@ -642,6 +643,12 @@ pub fn sweep_enc_thrash(run: &mut Run, prop: &'static str) {
         for j in 0..n {
             let c = if rot { kinds[j as usize % kinds.len()].clone() } else { call.clone() };
             history.push(Event::Encode { call: c, dst: 0x41 + j });
+        }
+        match mid {
+            1 => history.push(Event::Encode { call: call.clone(), dst: a }),
+            2 => history.push(Event::Encode { call: call.clone(), dst: 0x41 }),
+            3 => history.push(Event::Encode { call: call.clone(), dst: 0x42 }),
+            _ => {}
         }
         let dst = [a, 0x41, 0x7B][revisit as usize];
         acc.evals += 1;
